@@ -198,6 +198,16 @@ def run_history(case, ctx):
         ref = PolynomialFeatures(degree=d, interaction_only=io, include_bias=bias).fit(X)
         try:
             m.fit(X)
+            if rng.rand() < 0.4:
+                # calls that must be refused (wrong width, NaN-free object data, wrong names), then business as usual
+                for badcall in (lambda: m.transform(numpy.ones((2, n + 1))),
+                                lambda: m.get_feature_names_out(["w%d" % i for i in range(n + 2)]),
+                                lambda: m.transform(numpy.ones((0, n)))):
+                    try:
+                        badcall()
+                    except Exception:
+                        ctx.hit("history.refused_calls")
+                hist[-1]["refused_calls_before_transform"] = True
             outs = [m.transform(X), m.transform(X2), m.transform(X)]
             names = list(m.get_feature_names_out())
         except Exception as e:
